@@ -133,6 +133,40 @@ def exec_ptn(scn):
         except Exception as e:
             crec["exc"] = exc_name(e)
         out.append(crec)
+    # EXTENSION beyond C20's statement: the two shipped templates, each a fixed choice of the three filters.  Every call is
+    # judged twice with the spec's own filter expansion: against the filters the code really builds (as_code) and against
+    # the filters the docstring describes (as_documented); rejections are observations.
+    KINDS = ["hit", "hold", "tail"]
+    no_tail = {"base": [["tail", k] for k in KINDS], "opts": ["ANY_ORDER"], "exclude": True}
+    no_jack = {"base": [[0, 0]], "opts": ["REPEAT"], "exclude": True}
+    tn = 0
+    for (p, s_, low, jack) in scn.get("templates", []):
+        code_ch = {"base": [[p, s_]], "opts": ["ANY_ORDER", "AND_LOWER"] if low else [], "exclude": False}
+        doc_ch = {"base": [[p, s_]], "opts": ["ANY_ORDER"] + (["AND_LOWER"] if low else []), "exclude": False}
+        res_rows, exc = [], ""
+        try:
+            res = PtnCombo(groups).template_chord_stream(primary=p, secondary=s_, keys=KEYS, and_lower=low, include_jack=jack)
+            for ar in res:
+                for row in ar:
+                    res_rows.append(_rows(row))
+        except Exception as e:
+            exc = exc_name(e)
+        for how, ch in (("as_code", code_ch), ("as_documented", doc_ch)):
+            out.append({"id": f"{scn['id']}/tpl{tn}.{how}", "op": "combos", "cls": f"ext.template.chord_stream.{how}", "ext": True, "exc": exc,
+                        "n": 2, "groups": rec["groups"], "chord": _fdesc(ch), "combo": _fdesc(None if jack else no_jack),
+                        "type": _fdesc(no_tail), "out": res_rows})
+        tn += 1
+    if scn.get("templates"):
+        res_rows, exc = [], ""
+        try:
+            for ar in PtnCombo(groups).template_jacks(minimum_length=2, keys=KEYS):
+                for row in ar:
+                    res_rows.append(_rows(row))
+        except Exception as e:
+            exc = exc_name(e)
+        out.append({"id": f"{scn['id']}/jacks2", "op": "combos", "cls": "ext.template.jacks", "ext": True, "exc": exc, "n": 2,
+                    "groups": rec["groups"], "chord": _fdesc(None), "combo": _fdesc({"base": [[0, 0]], "opts": ["REPEAT"], "exclude": False}),
+                    "type": _fdesc(no_tail), "out": res_rows})
     return out
 
 
@@ -168,5 +202,6 @@ def random_scenarios(n, tier):
         notes = sorted(({"t": r.choice([0, 0.5, 1, 1.5, 2, 3, 4, 6]), "c": r.randint(0, 3), "k": r.choice(["hit", "hit", "hold", "tail"])}
                         for _ in range(r.randint(1, 9))), key=lambda x: x["t"])
         out.append({"id": f"r{i}", "notes": notes, "v": r.choice([0, 0.5, 1, 2]), "h": r.choice([-1, 0, 1, 2]),
-                    "jack": r.random() < 0.5, "filters": pick_filters(r, tier), "via_lists": i % 4 == 0, "regroup": i % 3 == 1})
+                    "jack": r.random() < 0.5, "filters": pick_filters(r, tier), "via_lists": i % 4 == 0, "regroup": i % 3 == 1,
+                    "templates": [(2, 1, False, False), (2, 1, True, False), (3, 2, True, True), (1, 1, False, True)] if i % 2 == 0 else []})
     return out
